@@ -190,7 +190,7 @@ pub fn check_key(ops: &[Op], budget: &mut u64) -> Verdict {
 }
 
 /// Cheap necessary conditions on one key's history (also catch what the end-state subtlety of the
-/// search could let through).
+/// search could let through; the only oracle for histories too long for the search).
 pub fn necessary(ops: &[Op]) -> Option<String> {
     let writes: Vec<&Op> = ops.iter().filter(|o| matches!(o.kind, OpKind::Write(_))).collect();
     let wmap: HashMap<u64, &Op> = writes.iter().map(|o| if let OpKind::Write(v) = o.kind { (v, *o) } else { unreachable!() }).collect();
@@ -284,9 +284,29 @@ fn transition_plan(rng: &mut StdRng, multi: bool) -> Plan {
     Plan { tasks: tasks2, pre_yields: pre2, keys, yields: !multi }
 }
 
+/// One or two tasks issuing hundreds of back-to-back writes (more than the command channel holds)
+/// followed by reads: a write must be in the store's queue when `write` returns.
+fn burst_plan(rng: &mut StdRng, multi: bool) -> Plan {
+    let keys = rng.gen_range(1, 3) as u8;
+    let ntasks = rng.gen_range(1, 3);
+    let mut tasks = Vec::new();
+    for t in 0..ntasks {
+        let key = (t as u8) % keys;
+        let mut ops: Vec<(u8, u8)> = (0..rng.gen_range(120, 400)).map(|_| (0u8, key)).collect();
+        ops.push((1, key));
+        ops.push((2, key));
+        tasks.push(ops);
+    }
+    let n = tasks.len();
+    Plan { tasks, pre_yields: vec![0; n], keys, yields: false }
+}
+
 fn make_plan(rng: &mut StdRng, multi: bool) -> Plan {
     if rng.gen_bool(0.4) {
         return transition_plan(rng, multi);
+    }
+    if rng.gen_bool(0.15) {
+        return burst_plan(rng, multi);
     }
     let keys = rng.gen_range(1, 4) as u8;
     let ntasks = rng.gen_range(2, 13);
@@ -507,6 +527,12 @@ pub fn run(class: &str, seed: u64, p: &Params) -> RunResult {
             let mut budget = 400_000u64;
             // In the multi-thread variant a still-pending waiter is not evidence (see run_history).
             let kops: Vec<Op> = if multi { kops.into_iter().filter(|o| o.kind != OpKind::NotifyRead(None)).collect() } else { kops };
+            if kops.len() > 120 {
+                // burst histories: too long for the search; the necessary conditions above decide
+                report.count("C16.key_histories_checked_by_necessary_conditions_only", 1);
+                report.sit("C16:write_burst_beyond_channel_capacity");
+                continue;
+            }
             match check_key(&kops, &mut budget) {
                 Verdict::Linearizable => report.count("C16.key_histories_linearizable", 1),
                 Verdict::NotLinearizable(m) => report.violate(
